@@ -332,6 +332,8 @@ def run(ctx):
             if rep["kind"] != "data race":
                 other_warnings[rep["kind"]] = other_warnings.get(rep["kind"], 0) + 1
                 continue
+            if line.startswith("afterwait") and facts["discipline"]["handle_problems"]:
+                continue      # consequence of the lost join: reported once, under the thread-handle key
             fields, used = attribute(rep, facts, vlib.REPO)
             in_repo = [u for u in used if u]
             if not fields:
